@@ -196,8 +196,9 @@ class Dims:
     from mmsa.kinds import Kinds
     if not hasattr(self, '_K'):
       self._K = Kinds(self.repo, self.T)
+      self._K.may = True      # a unit that *can* reach the use is enough for a scale-dependence witness
     el = self._K.tuple_elems(f, d.value, d.node, 8)
-    if el is not None and d.index < len(el):
+    if el is not None and -len(el) <= d.index < len(el):
       return self.dim(el[d.index][0], el[d.index][1], None, depth - 1, False)
     return None
 
